@@ -96,6 +96,24 @@ def _geom_f(ctx, shape, hst):
     ctx.stub("Router.calculate_distance returns arbitrary reals (its own formula is VC G2b)")
 
 
+def _replay_projection_args(vals):
+    from unittest import mock
+    r, _, _ = real_router()
+    seen = []
+    area = Area(latitude=vals["alat"], longitude=vals["alon"], a=100, b=50, angle=0)
+    with mock.patch.object(Router, "calculate_distance", staticmethod(lambda c1, c2: (seen.append((c1, c2)), (1.0, 1.0))[1])):
+        try:
+            r.gn_geometric_function_f(GeoBroadcastHST.GEOBROADCAST_ELIP, area, vals["lat"], vals["lon"])
+        except Exception as e:          # noqa
+            return True, f"raised {e!r}"
+    if not seen:
+        return True, "the projection was not called"
+    (c1, c2) = seen[0]
+    want = ((vals["alat"] / 1e7, vals["alon"] / 1e7), (vals["lat"] / 1e7, vals["lon"] / 1e7))
+    bad = any(abs(a - b) > 1e-9 for pa, pb in zip((c1, c2), want) for a, b in zip(pa, pb))
+    return bad, f"calculate_distance called with {c1}, {c2}; centre and point in degrees are {want[0]}, {want[1]}"
+
+
 def _mk_geom(shape, hst):
     @vc("C07", f"G2a-geometric-function-{hst.name.lower()}")
     def f(ctx):
@@ -144,7 +162,7 @@ def projection(ctx):
     bad = z3.Or(I2.to_float(c1[0]) * 10000000 != z3.ToReal(area.fields["latitude"]), I2.to_float(c1[1]) * 10000000 != z3.ToReal(area.fields["longitude"]),
                 I2.to_float(c2[0]) * 10000000 != z3.ToReal(lat), I2.to_float(c2[1]) * 10000000 != z3.ToReal(lon))
     ctx.prove("centre-and-point-in-degrees", I2, bad, vars={"alat": area.fields["latitude"], "alon": area.fields["longitude"], "lat": lat, "lon": lon},
-              replay=lambda v: (True, "arguments of calculate_distance are not (centre, point) in 1e-7 degrees"),
+              replay=_replay_projection_args,
               desc="signed 1/10 micro-degree integers are converted to degrees and passed as (area centre, receiver position)")
     ctx.bound("all signed WGS-84 coordinates (both hemispheres)")
 
@@ -215,7 +233,16 @@ def area_size(ctx):
         # the size is computed for the request's own sub-type and area
         (pc0, a0, s0), = h.area_sizes[:1]
         same = z3.And(I._lb(I.equal(a0[0], hst)), a0[1] is req.fields["area"])
-        ctx.prove(f"{tag}-size-of-the-requested-area", I, z3.Not(same), vars=vars_, replay=lambda v: (True, "size computed for another sub-type/area"))
+        def replay_size_args(vals, h=h, req=req, meth=meth):
+            from unittest import mock
+            R_, ll, got, patches = build_real(h, vals)
+            rq = G.concretize(req, vals)
+            seen_ = []
+            with patches, mock.patch.object(Router, "_compute_area_size_m2", staticmethod(lambda hst_, area_: (seen_.append((hst_, area_)), 0.0)[1])):
+                getattr(R_, meth.__name__)(rq)
+            ok_ = bool(seen_) and seen_[0][0] == rq.packet_transport_type.header_subtype and seen_[0][1] == rq.area
+            return not ok_, f"area size computed for {seen_[:1]} while the request is {rq.packet_transport_type.header_subtype} {rq.area}"
+        ctx.prove(f"{tag}-size-of-the-requested-area", I, z3.Not(same), vars=vars_, replay=replay_size_args)
     ctx.bound("size kernel: semi-axes 0..65535 m symbolic, six sub-types, formulas typed from EN 302 931; source operation: itsGnMaxGeoAreaSize 1..1000 km2 symbolic, "
               "area size an arbitrary non-negative real; real arithmetic")
 
@@ -347,6 +374,40 @@ def _rx_area(ctx, kind, code):
     ctx.witness(f"{tag}-reach-delivery", I, z3.And(ok, h.any_indication()), vars=vars_, validate=lambda v: not replay(v)[0])
     ctx.prove(f"{tag}-delivered-iff-inside", I, z3.And(ok, h.any_indication() != (f_ego >= 0)), vars=vars_, replay=replay,
               desc="the packet reaches the upper layer exactly when F(ego position) >= 0")
+    # the decision is taken on the packet's own area - all five parameters - and the station's own position
+    pc0, a0, _f0 = h.F[0]
+    ext = 12
+    want_area = {"latitude": I.from_bytes([SBytes(pkt.bs[ext + 28: ext + 32]), "big"], {"signed": True}, TRUE),
+                 "longitude": I.from_bytes([SBytes(pkt.bs[ext + 32: ext + 36]), "big"], {"signed": True}, TRUE),
+                 "a": I.from_bytes([SBytes(pkt.bs[ext + 36: ext + 38]), "big"], {}, TRUE), "b": I.from_bytes([SBytes(pkt.bs[ext + 38: ext + 40]), "big"], {}, TRUE),
+                 "angle": I.from_bytes([SBytes(pkt.bs[ext + 40: ext + 42]), "big"], {}, TRUE)}
+    area0 = a0[1]
+    args_bad = [z3.Not(I._lb(I.equal(area0.fields[k_], v_))) for k_, v_ in want_area.items()] if isinstance(area0, Obj) else [TRUE]
+    args_bad += [z3.Not(I._lb(I.equal(a0[2], h.ego.fields["latitude"]))), z3.Not(I._lb(I.equal(a0[3], h.ego.fields["longitude"])))]
+
+    def replay_args(vals):
+        from unittest import mock
+        from flexstack.geonet.gbc_extended_header import GBCExtendedHeader
+        R_, ll, got, patches = build_real(h, vals)
+        seen = []
+        with patches:
+            orig = R_.gn_geometric_function_f
+            R_.gn_geometric_function_f = lambda *a: (seen.append(a), orig(*a))[1]
+            with mock.patch("flexstack.geonet.router.Timer", lambda *a, **k: mock.Mock()):
+                try:
+                    R_.gn_data_indicate(vals["frame"])
+                except Exception as e:          # noqa
+                    return False, f"raised {e!r}"
+        if not seen:
+            return False, "geometric function not evaluated"
+        hdr = GBCExtendedHeader.decode(vals["frame"][12:56])
+        _, area, lat, lon = seen[0][-4:]
+        ego = R_.ego_position_vector
+        want = (hdr.latitude, hdr.longitude, hdr.a, hdr.b, hdr.angle, ego.latitude, ego.longitude)
+        gotv = (area.latitude, area.longitude, area.a, area.b, area.angle, lat, lon)
+        return gotv != want, f"{tag}: area / position handed to the geometric function {gotv}; packet area and ego position {want}"
+    ctx.prove(f"{tag}-decision-taken-on-the-packets-area-and-the-ego-position", I, z3.And(ok, pc0, z3.Or(*args_bad)), vars=vars_, replay=replay_args,
+              desc="the geometric function is evaluated for the received area (centre, both distances and the azimuth angle) and the station's own latitude / longitude")
     ctx.prove(f"{tag}-oversized-area-not-forwarded", I, z3.And(ok, size_over, fwd), vars=vars_, replay=replay,
               desc="a packet whose area exceeds itsGnMaxGeoAreaSize is never re-transmitted (delivery inside the area is unaffected)")
     if kind.startswith("gbc"):
